@@ -457,13 +457,20 @@ def check_C15(run):
 # ---------------------------------------------------------------------------
 def check_C19(run):
     res = vlib.run_tlc(run, "MC_Template", dump=True, env={"VERIF_DEPTH": "2" if run.quick else "3"}, timeout=3000)
+    dumps = [res["dump"]]
+    if not run.quick:
+        # deeper, over the core of the alphabet: the segment kinds that interact with their neighbours
+        dumps.append(vlib.run_tlc(run, "MC_Template", dump=True, env={"VERIF_DEPTH": "4c"}, timeout=3000, tag="MC_Template-core4")["dump"])
     tp = run.path("templates.ndjson")
     n = 0
+    seen = set()
     with open(tp, "w") as f:
-        for st in vlib.parse_dump(res["dump"]):
-            if st["segs"]:
-                f.write(json.dumps({"segs": st["segs"], "src": st["src"]}) + "\n")
-                n += 1
+        for d in dumps:
+            for st in vlib.parse_dump(d):
+                if st["segs"] and st["src"] not in seen:
+                    seen.add(st["src"])
+                    f.write(json.dumps({"segs": st["segs"], "src": st["src"]}) + "\n")
+                    n += 1
     s, verdicts = record_and_validate(run, ["tmpl", "-in", tp, "-reports", "6" if run.quick else "3"], "Trace_Template", "tmpl")
     judge(run, verdicts, describe=lambda ev: "%s report (%s), %s export of %r" % (ev.get("lvl"), ev.get("lang"), ev.get("mode"), ev.get("text")))
     run.cov.update(s["extra"])
@@ -475,7 +482,7 @@ def check_C19(run):
                 "qualified field references, if, with, printf, pipelines, comments, trim markers, execution errors, parse errors) plus %d hand-written "
                 "templates outside the grammar, exported from reports of all three levels in two languages through ExportWithString and through "
                 "ExportWith with 1-byte, 7-byte and whole-content readers, failing readers, nil readers and nil reports; one event per export"
-                % ("2" if run.quick else "3", s["extra"]["templates_outside_grammar"]),
+                % ("2" if run.quick else "3 (and of at most 4 segments over the 12-kind core of the alphabet)", s["extra"]["templates_outside_grammar"]),
                 evaluations=s["observations"], distinct_nontrivial=s["distinct"], exhaustive=False)
 
 
@@ -519,12 +526,12 @@ def check_C16(run):
                 n += 1
     race_bin = vlib.build_harness(run, race=True)
     chunks, obs, dist = [], 0, 0
-    s = run_race_harness(run, race_bin, ["conc-replay", "-in", sp, "-pairs", "12" if run.quick else "80", "-out", run.work], "gated schedule replay")
+    s = run_race_harness(run, race_bin, ["conc-replay", "-in", sp, "-pairs", "12" if run.quick else "400", "-out", run.work], "gated schedule replay")
     if s:
         chunks += s["chunks"]; obs += s["observations"]; dist += s["distinct"]
         run.cov.update(s["extra"])
         run.samples += s.get("samples", [])[:2]
-    cfgs = [("32", "300", "0"), ("16", "300", "2")] if run.quick else [("64", "3000", "0"), ("16", "3000", "2"), ("64", "1500", "4"), ("128", "800", "16")]
+    cfgs = [("32", "300", "0"), ("16", "300", "2")] if run.quick else [("64", "12000", "0"), ("16", "12000", "2"), ("64", "6000", "4"), ("128", "3000", "16"), ("256", "1500", "0"), ("8", "20000", "8")]
     for i, (g, ops, procs) in enumerate(cfgs):
         d = run.path("stress%d" % i)
         os.makedirs(d)
